@@ -46,3 +46,59 @@ Definition show_ilp (c : c05ilp) :=
   let U := i_U c in let n := length U in
   let K := table_of (cost_matrix (i_s c) (positions U (i_D c))) in
   (decode n (v_of (i_vals c)), obj_value K n (v_of (i_vals c)), length (ilp_rows n (i_P c)), length (i_rows c)).
+
+(** * the CPLEX models, run on a stand-in for the CPLEX API (C05) *)
+(** threshold of the "no tie" test in model units; 0 after the repair of F15 (it was 0.001 = 8 units) *)
+Definition NOTIE_THR : Z := 0.
+
+Record cp_prog := mkCP {
+  cp_notie : bool;                     (* the variant asks for the no-tie optimisation *)
+  cp_rows : list row; cp_obj : list (Z * var);
+  cp_pool : list (list (var * Z));     (* one assignment per solution returned by the solver *)
+  cp_integral : bool;
+  cp_cons : list ranking }.            (* the consensus rankings built from them (elements) *)
+
+Record c05cplex := mkC05C {
+  x_s : scheme; x_D : dataset; x_U : list nat;
+  x_runs : list ex_run;                (* every configuration: consensus, flag, score *)
+  x_progs : list cp_prog;              (* the configurations that solve ONE program over the whole dataset *)
+  x_all : option (list ranking) }.     (* what "all optimal consensuses" returned (non-optimised model), when asked *)
+
+Definition all_optimal_rankings (K : table) (n : nat) : list ranking :=
+  let U := seq 0 n in
+  let best := opt K U in
+  map (fun a => rank_of U (p_of a)) (filter (fun a => scoref K U (p_of a) =? best) (assigns U n)).
+
+Definition same_rankings (L1 L2 : list ranking) : bool :=
+  forallb (fun r => existsb (list_eqb set_eq r) L2) L1 && forallb (fun r => existsb (list_eqb set_eq r) L1) L2.
+
+Definition judge_cplex (c : c05cplex) : nat :=
+  let U := x_U c in
+  let n := length U in
+  let K := table_of (cost_matrix (x_s c) (positions U (x_D c))) in
+  let best := opt K (seq 0 n) in
+  let m := list_eqb Nat.eqb (universe (x_D c)) U
+    && forallb (fun p =>
+         rows_same (cplex_rows K n (cp_notie p) NOTIE_THR) (cp_rows p)
+         && perm_by term_eqb (nz (objective K n)) (nz (cp_obj p))
+         && forallb (fun vals => perm_by var_eqb (all_vars n) (map fst vals)) (cp_pool p)
+         && list_eqb (list_eqb set_eq) (map (fun vals => decode n (v_of vals)) (cp_pool p)) (map (to_ids U) (cp_cons p)))
+       (x_progs c) in
+  let spec :=
+    forallb (fun r =>
+      negb (Nat.eqb (length (ex_cons r)) 0) && ex_flag r
+      && forallb (fun cr => let cons := to_ids U cr in wf_cons n cons && (score K cons =? best)) (ex_cons r)
+      && match ex_score r with Some v => v =? best | None => false end) (x_runs c)
+    && forallb (fun p =>
+         cp_integral p && negb (Nat.eqb (length (cp_pool p)) 0)
+         && forallb (fun vals => feasible_rows n (cplex_rows K n (cp_notie p) NOTIE_THR) (v_of vals)
+                                 && (obj_value K n (v_of vals) =? best)) (cp_pool p)) (x_progs c)
+    && match x_all c with
+       | Some rs => same_rankings (map (to_ids U) rs) (all_optimal_rankings K n)
+       | None => true
+       end in
+  code m spec.
+Definition show_cplex (c : c05cplex) :=
+  let U := x_U c in let n := length U in
+  let K := table_of (cost_matrix (x_s c) (positions U (x_D c))) in
+  (opt K (seq 0 n), all_optimal_rankings K n, map (fun p => (length (cplex_rows K n (cp_notie p) NOTIE_THR), length (cp_rows p))) (x_progs c)).
